@@ -35,11 +35,11 @@ Print Assumptions C01_library_layer.
    struct-level tag, all four enum representations incl. newtype variants of an internally tagged enum around a struct
    (`{ "tag": "Name" } & Struct`), fields of any library type expression over type
    parameters and references to (instantiations of) other definitions, recursion included, `inline`
-   on fields of definitions without parameters, `optional` / `optional = nullable` on Option fields and `optional_fields`
+   on fields of closed type (no type parameter of the definition in it: in generic definitions too), `optional` / `optional = nullable` on Option fields and `optional_fields`
    on the container where serde agrees with the `?` — a property whose type does not include null carries
    skip_serializing_if = "Option::is_none", and only such a field may be left out; no type / as overrides and no flatten of enums or maps, which
-   the corpus correspondence covers instead; `flatten` of a struct with named fields (no tag, no flattened field of its own) into a
-   definition without type parameters, at any position among the fields, the keys of host and flattened structs distinct), for EVERY closed type expression — every instantiation
+   the corpus correspondence covers instead; `flatten` of a struct with named fields (no tag, no flattened field of its own) into any
+   definition (the flattened type closed), at any position among the fields, the keys of host and flattened structs distinct), for EVERY closed type expression — every instantiation
    of the generic definitions at closed types —, EVERY value and every serde recursion depth: what serde_json emits is, from some evaluation depth on, a member of the TypeScript type
    TS::name() reports, read against the declarations ts-rs generates for that environment. *)
 Theorem C01_derive_layer :
@@ -140,6 +140,31 @@ Example C01_derive_generic_nonvacuous :
       = Ok (lit "type Opt<T> = { ""t"": ""Nothing"" } | { ""t"": ""Just"", ""c"": T } | { ""t"": ""Both"", ""c"": { l: T, r: Pair<T, boolean>, } };"%string) /\
     json_text j = lit "{""first"":5,""second"":[{""t"":""Nothing""},{""t"":""Just"",""c"":""x""},{""t"":""Both"",""c"":{""l"":""y"",""r"":{""first"":""z"",""second"":[true]}}}]}"%string.
 Proof. split; [vm_compute; reflexivity|]. split; [vm_compute; reflexivity|]. eexists; eexists; eexists; eexists. repeat split; vm_compute; reflexivity. Qed.
+
+(* an inlined field inside a generic definition: struct Wrap<T> { #[ts(inline)] at: Pt, t: T } with struct Pt { x: i32 } *)
+Module C01_inline_generic.
+Import C01_example.
+Definition finl (n : String.string) (t : rty) (i : bool) : field :=
+  {| f_ident := lit n; f_ty := t; f_serde_ty := t; f_rename := None; f_skip := false; f_inline := i;
+     f_flatten := false; f_optional := NotOptional; f_type := None; f_docs := []; f_skip_none := false |}.
+Definition R : env :=
+  [(lit "Pt", DStruct (C01_generic.catp "Pt" []) (SNamed [finl "x" i32 false]));
+   (lit "Wrap", DStruct (C01_generic.catp "Wrap" [(lit "T", None)]) (SNamed [finl "at" (RNamed (lit "Pt") []) true; finl "t" (RParam 0) false]))].
+Definition t : rty := RNamed (lit "Wrap") [RVec (RLeaf LBool)].
+End C01_inline_generic.
+
+Example C01_derive_inline_in_generic_nonvacuous :
+  let R := C01_inline_generic.R in
+  plain_envb C01_example.up C01_example.al is_ascii_digit R 10 = true /\ mono_ty R C01_inline_generic.t = true /\
+  exists a d j, name_of R C01_inline_generic.t = Ok a /\ Rust.lookup R (lit "Wrap"%string) = Some d /\
+    decl_text C01_example.up C01_example.al is_ascii_digit R 10 d = Ok (lit "type Wrap<T> = { at: { x: number, }, t: T, };"%string) /\
+    ser C01_example.up R 10 C01_inline_generic.t (VStruct [VStruct [VInt 3]; VSeq [VBool true]]) = Some j /\
+    json_text j = lit "{""at"":{""x"":3},""t"":[true]}"%string /\
+    memberb (env_of C01_example.up C01_example.al is_ascii_digit R 10) 12 a j = true.
+Proof.
+  cbv zeta. split; [vm_compute; reflexivity|]. split; [vm_compute; reflexivity|]. eexists; eexists; eexists.
+  repeat split; vm_compute; reflexivity.
+Qed.
 
 (* optional properties: #[ts(optional_fields)] struct Opt { #[serde(skip_serializing_if = "Option::is_none")] a: Option<i32>,
    #[ts(optional = nullable)] b: Option<bool>, c: i32 }: `a` is left out when None, `b` is written as null *)
